@@ -150,7 +150,8 @@ def run_one(rec, variant):
                 # a long history of one period (well over a hundred snapshots): every further solve from the same starting
                 # state appends the same segment again, for every traced variable
                 reps = 2
-                while reps * len(seg) <= 130:
+                limit = 12000 if len(seg) > 1000 else 130     # a deep behaviour is repeated until the period holds > 12 000 snapshots
+                while reps * len(seg) <= limit:
                     for i in range(nv):
                         d[f'_X{i + 1}'][tpos] = rs.real(cfg['c0'][i], scale)
                         src = tpos + cfg['offset']
